@@ -113,6 +113,10 @@ def face_values(rng, n):
         for num in range(-den, 2 * den + 1, max(1, den // 3)):
             v = num / den
             vals += [v, np.nextafter(v, 10), np.nextafter(v, -10)]
+    # near (not at) a face, at every decade between 1e-3 and 1e-14: catches tolerance-based "snapping"
+    for m in (-1.0, 0.0, 1.0, 2.0):
+        for j in range(3, 15):
+            vals += [m + 10.0 ** -j, m - 10.0 ** -j]
     idx = rng.integers(0, len(vals), size=n)
     return np.array([vals[i] for i in idx])
 
@@ -140,13 +144,16 @@ def check_face(out: Outcome, rng, lat_name, lat):
     if not np.array_equal(p1, p2):
         out.fail('property', 'positions-read-twice-identical', case, expected=p1.tolist(), observed=p2.tolist())
         return
-    # congruence up to rounding: p - x is within 2 ulp(|x|+1) of an integer
-    r = p1 - coords
-    dev = np.abs(r - np.round(r))
-    tol = 4 * np.spacing(np.abs(coords) + 1)
-    if np.any(dev > tol):
-        out.fail('property', 'positions-congruent-to-input', case, expected='p - x integer (to rounding)', observed=float(dev.max()))
-        return
+    # congruence up to rounding, evaluated exactly: p - (x - floor(x)) is 0 or -1 within 2^-51
+    import math
+    for xv, pv in zip(coords.reshape(-1).tolist(), p1.reshape(-1).tolist()):
+        fx = Fraction(xv)
+        exact = fx - math.floor(fx)
+        dev = abs(Fraction(pv) - exact)
+        if min(dev, abs(dev - 1)) > Fraction(1, 2**51):
+            out.fail('property', 'positions-congruent-to-input', case, expected=float(exact), observed=pv,
+                     note='reported position is not the input modulo 1 (beyond rounding)')
+            return
     d = np.array(tr.displacements)
     if np.any(np.abs(d) > 0.5 + 1e-15):
         out.fail('property', 'displacement-minimum-image', case, expected='|d| <= 1/2', observed=float(np.abs(d).max()))
